@@ -102,6 +102,11 @@ BAD_REFS = {
 }
 
 
+def docs_snake(name: str) -> str:
+    import re as _re
+    return _re.sub(r"(?<=[a-z0-9])(?=[A-Z])", "_", name).lower()
+
+
 def with_bad_ref(doc: dict, kind: str, n: int):
     d = copy.deepcopy(doc)
     comp = d.setdefault("components", {})
@@ -257,6 +262,81 @@ def main() -> int:
                 vd.violation(f"unrelated_changed:schema_{bad_key}:{artefact_kind(rel)}", f"{bases[bi][0]}: {rel} {'disappeared' if rel not in b1['tree'] else 'changed'} although it does not depend on {sorted(touched)} (dependants: {sorted(dep)[:6]})", dict(w, file=rel))
                 break
         ev.seen(("C20c2", bad_key, tuple(sorted(bases[bi][2]))[:6]))
+    # (c'') a schema that fails because of a bad reference, with one dependant per schema position: every dependant goes
+    #       (with a diagnostic) or stays importable; files of the base document are unaffected
+    from ..harness import dangling_mechanism
+    from .c01 import removed_by_cascade
+    djobs, dinfo = [], {}
+    R_ = lambda n_: {"$ref": f"#/components/schemas/{n_}"}  # noqa: E731
+    for bi, (label, d, feats) in enumerate(bases):
+        if bi % (3 if quick else 1):
+            continue
+        for bad_key, badref in (("dangling_ref", "#/components/schemas/NoSuchThingZq"), ("remote_ref", "other.yaml#/components/schemas/Remote"), ("url_ref", "https://example.invalid/api.json#/components/schemas/Remote")):
+            if (bi + len(bad_key)) % 2 and quick:
+                continue
+            d2 = copy.deepcopy(d)
+            c2 = d2["components"]["schemas"]
+            late = r.random() < 0.6
+            c2["ZqW"] = {"type": "object", "properties": {"fine": {"type": "string"}, "zq_late": {"$ref": badref}}} if late else {"$ref": badref}
+            fam = {
+                "ZqViaProp": {"type": "object", "properties": {"p": R_("ZqW")}},
+                "ZqViaItems": {"type": "object", "properties": {"l": {"type": "array", "items": R_("ZqW")}}},
+                "ZqViaAddl": {"type": "object", "additionalProperties": R_("ZqW")},
+                "ZqViaAllOf": {"allOf": [R_("ZqW"), {"type": "object", "properties": {"own": {"type": "integer"}}}]},
+                "ZqViaUnion": {"type": "object", "properties": {"u": {"oneOf": [R_("ZqW"), {"type": "integer"}]}}},
+                "ZqViaNullable": {"type": "object", "properties": {"n": {"oneOf": [R_("ZqW"), {"type": "null"}]} if str(d.get("openapi", "")).startswith("3.1") else {"allOf": [R_("ZqW")], "nullable": True}}},
+                "ZqSecond": {"type": "object", "properties": {"via": R_("ZqViaAddl"), "via2": {"type": "array", "items": R_("ZqViaItems")}}},
+            }
+            ks = list(fam)
+            r.shuffle(ks)
+            if r.random() < 0.5:
+                c2["ZqW"] = c2.pop("ZqW")  # the failing schema declared before its users ...
+            for k_ in ks:
+                c2[k_] = fam[k_]
+            if r.random() < 0.5:
+                c2["ZqW"] = c2.pop("ZqW")  # ... or after them
+            okj = lambda sch: {"description": "ok", "content": {"application/json": {"schema": sch}}}  # noqa: E731
+            d2["paths"]["/zq-dep-body"] = {"post": {"operationId": "zq_dep_body", "requestBody": {"content": {"application/json": {"schema": R_("ZqW")}}}, "responses": {"200": {"description": "ok"}}}}
+            d2["paths"]["/zq-dep-resp"] = {"get": {"operationId": "zq_dep_resp", "responses": {"200": okj({"type": "array", "items": R_("ZqViaProp")})}}}
+            d2["paths"]["/zq-dep-addl"] = {"get": {"operationId": "zq_dep_addl", "responses": {"200": okj(R_("ZqViaAddl"))}}}
+            j0 = run.job(d, want=["tree"])
+            j1 = run.job(d2, want=["tree"], sandbox=[{"a": "import_all"}])
+            j0["name"] = j1["name"] = f"pkg{bi}"
+            dinfo[j1["id"]] = (bi, j0["id"], bad_key, late)
+            djobs += [j0, j1]
+    dres = dict(zip([j["id"] for j in djobs], run.map(djobs, timeout=300)))
+    for j in djobs:
+        if j["id"] not in dinfo:
+            continue
+        bi, base_id, bad_key, late = dinfo[j["id"]]
+        b0, b1 = dres[base_id], dres[j["id"]]
+        if any(x.get("_error") or x.get("exc") or not x.get("accepted") for x in (b0, b1)) or b0.get("diags"):
+            continue
+        ev.count("dependant_family_pairs")
+        w = {"base": bases[bi][1], "variant": j["doc"], "kind": f"dependants:{bad_key}:{'late' if late else 'direct'}"}
+        if not b1.get("diags"):
+            vd.violation(f"no_diagnostic:schema_{bad_key}", f"{bases[bi][0]}: a schema with a {bad_key} and eight dependants produced no diagnostic", w)
+        for rel, text in b0["tree"].items():
+            if rel in ("models/__init__.py",) or artefact_kind(rel) == "api_init":
+                continue
+            if b1["tree"].get(rel) != text:
+                vd.violation(f"unrelated_changed:schema_{bad_key}:{artefact_kind(rel)}", f"{bases[bi][0]}: {rel} {'disappeared' if rel not in b1['tree'] else 'changed'} after adding a failing schema with its own dependants", dict(w, file=rel))
+                break
+        sb = (b1.get("sandbox") or {}).get("results") or []
+        if sb and not sb[0].get("action_exc"):
+            im = sb[0]
+            ev.count("dependant_family_trees_imported")
+            removed = removed_by_cascade(b1.get("diags") or [])
+            for e in im.get("errors", []):
+                if e["exc"]["type"] not in ("SyntaxError", "ModuleNotFoundError", "ImportError"):
+                    vd.violation("dependant_kept_broken:import_error", f"{bases[bi][0]}: {e['module']}: {e['exc']['type']}: {e['exc']['msg'][:200]}", w)
+            for u in im.get("unresolved", []):
+                if "Zq" not in json.dumps(u):
+                    continue
+                mech = dangling_mechanism(u, b1["tree"], removed)
+                pos = next((k_ for k_ in ("ZqViaProp", "ZqViaItems", "ZqViaAddl", "ZqViaAllOf", "ZqViaUnion", "ZqViaNullable", "ZqSecond", "zq_dep_body", "zq_dep_resp", "zq_dep_addl") if docs_snake(k_) in u["module"]), "other")
+                vd.violation("dependant_kept_dangling" + (mech or f":{pos}"), f"{bases[bi][0]}: {u['module']}:{u['line']}: {u['what']} (dependant kept although the schema it refers to was removed)", w)
+        ev.seen(("C20c3", bad_key, late, tuple(sorted(bases[bi][2]))[:6]))
     rs = run.map(jobs, timeout=300)
     by = {}
     for j, res in zip(jobs, rs):
